@@ -110,6 +110,16 @@ def lstsqForwardSvd (m n r : Nat) (U V : Nat → Nat → α) (sigma : Nat → α
     (b : Nat → α) : Except String (Tab α) :=
   lstsqForward n (some (pinvForward m n (pinvOfSvd r U V sigma (lstsqCutoff rcond m n eps mach (sigma 0))) b).get)
 
+/-- The solution an orthogonal-factorisation driver of `lstsq` (default `gelsy`: QR with column pivoting, then a complete
+orthogonal decomposition `A_r = Q T Zᵀ` of the part of numerical rank `r`) returns: `x = Z T⁻¹ Qᵀ b`
+(`Q : m × r`, `Z : n × r`, `Ti = T⁻¹ : r × r`; three matrix–vector products, as in LAPACK). -/
+def lstsqOfCod (m n r : Nat) (Q Z Ti : Nat → Nat → α) (b : Nat → α) : Tab α :=
+  pinvForward r n Z (pinvForward r r Ti (pinvForward m r (transpose Q) b).get).get
+
+/-- `LSTSQ.forward` with the orthogonal-factorisation kernel unfolded one level, followed by the NaN assertion -/
+def lstsqForwardCod (m n r : Nat) (Q Z Ti : Nat → Nat → α) (b : Nat → α) : Except String (Tab α) :=
+  lstsqForward n (some (lstsqOfCod m n r Q Z Ti b).get)
+
 /-- `LSTSQ.forward` on a batch: ONE assertion `not torch.any(torch.isnan(solution))` for the whole batch. -/
 def lstsqForwardBatch (n : Nat) (sols : List (Option (Nat → α))) : Except String (List (Tab α)) :=
   if sols.any (fun s => s.isNone) then .error "assert:lstsq-nan"
